@@ -89,9 +89,16 @@ def equal(a, b):
 class Prims:
     """primitive operations; `abstract=True` replaces * / % and all double arithmetic by uninterpreted
     functions shared by both sides (stage 1: unsat under the abstraction is unsat for every interpretation)."""
-    def __init__(self, abstract):
+    def __init__(self, abstract, concrete_lib=False):
         self.abstract = abstract
+        self.concrete_lib = concrete_lib    # replay stage: library functions as the mock implements them
         self._uf = {}
+
+    @staticmethod
+    def _consts(*xs):
+        """all arguments are literals: an abstracted operation is then given its true value (a refinement
+        that every interpretation agreeing with the real operation satisfies, so stage-1 unsat stays sound)"""
+        return all(z3.is_bv_value(x) or z3.is_fp_value(x) or (z3.is_fp(x) and z3.is_fp_value(z3.simplify(x))) for x in xs)
 
     def uf(self, name, *sorts):
         if name not in self._uf:
@@ -101,7 +108,7 @@ class Prims:
     # --- integers ---------------------------------------------------------------------------------
     def iarith(self, op, signed, l, r):
         """-> (value, ub) for + - * / % on 32-bit int (signed) or uint (wrapping)"""
-        A = self.abstract
+        A = self.abstract and not self._consts(l, r)
         if op == '+':
             v = l + r
             ub = z3.Not(z3.And(z3.BVAddNoOverflow(l, r, True), z3.BVAddNoUnderflow(l, r))) if signed else FALSE
@@ -157,9 +164,10 @@ class Prims:
 
     # --- doubles ----------------------------------------------------------------------------------
     def farith(self, op, l, r):
-        if self.abstract:
+        if self.abstract and not self._consts(l, r):
             return self.uf('f' + {'+': 'add', '-': 'sub', '*': 'mul', '/': 'div'}[op], F64, F64, F64)(l, r)
-        return {'+': z3.fpAdd, '-': z3.fpSub, '*': z3.fpMul, '/': z3.fpDiv}[op](RNE, l, r)
+        v = {'+': z3.fpAdd, '-': z3.fpSub, '*': z3.fpMul, '/': z3.fpDiv}[op](RNE, l, r)
+        return z3.simplify(v) if self._consts(l, r) else v
 
     def fcmp(self, op, l, r):
         return {'==': lambda: z3.fpEQ(l, r), '!=': lambda: z3.Not(z3.fpEQ(l, r)), '<': lambda: z3.fpLT(l, r),
@@ -207,13 +215,23 @@ class Prims:
 
     # --- library functions (uninterpreted on both sides) --------------------------------------------
     def tr(self, s):
+        if self.concrete_lib:
+            return z3.Concat(z3.StringVal('tr('), s, z3.StringVal(')'))
         return self.uf('tr', STR, STR)(s)
 
     def arg(self, s, x, xty):
+        if self.concrete_lib:
+            if xty not in ('int', 'uint'):
+                raise NotImplementedError('no concrete model of arg(' + xty + ')')
+            return z3.Concat(s, z3.StringVal('%'), z3.IntToStr(z3.BV2Int(x, False)))
         tag = {'int': 'i', 'uint': 'u', 'double': 'd', 'QString': 's', 'bool': 'b'}.get(xty, 'x')
         return self.uf('arg_' + tag, STR, sort_of(xty), STR)(s, x)
 
     def call_ret(self, meth, recv, args, ret_ty, seqno):
         """result of a value-returning slot: uninterpreted in receiver and arguments"""
+        if self.concrete_lib:
+            if meth != 'twice':
+                raise NotImplementedError('no concrete model of ' + meth)
+            return args[0] + args[0]
         f = self.uf(f'ret_{meth}', INT, *[a.sort() for a in args], sort_of(ret_ty))
         return f(recv, *args)
